@@ -295,10 +295,24 @@ def probe_worker(cfg):
                 v = ocp.variable()
                 rhs = rhs + 100 * v
                 ocp.add_objective(v ** 2)
+            if cfg.get("with_bsvar"):
+                w = ocp.variable(grid="bspline", order=1)
+                rhs = rhs + 10 * w
+                ocp.add_objective(ocp.sum(w ** 2))
+            if cfg.get("pc"):
+                pc = ocp.parameter(grid="control")
+                rhs = rhs + 1000 * pc
+            if cfg.get("g") is not None:
+                gg = ocp.parameter()
+                rhs = rhs + 10000 * gg
             ocp.set_der(x, rhs)
             ocp.add_objective(ocp.at_tf(x) ** 2)
             ocp.subject_to(ocp.at_t0(x) == 0)
             ocp.set_value(p, ca.DM(c).T)
+            if cfg.get("pc"):
+                ocp.set_value(pc, ca.DM(cfg["pc"]).T)
+            if cfg.get("g") is not None:
+                ocp.set_value(gg, cfg["g"])
             ocp.method(rockit.MultipleShooting(N=N, intg="expl_euler"))
             ocp.solver("ipopt", {"ipopt.print_level": 0, "print_time": False})
             ocp.sample(x, grid="control")
@@ -316,7 +330,13 @@ def probe_cases(rng, n):
     for _ in range(n):
         N = rng.randint(1, 4)
         d = rng.randint(0, 3)
-        out.append({"N": N, "d": d, "c": [float(dyadic(rng, 1, 3, 2)) for _ in range(N + d)], "with_var": rng.random() < 0.5})
+        cfg = {"N": N, "d": d, "c": [float(dyadic(rng, 1, 3, 2)) for _ in range(N + d)], "with_var": rng.random() < 0.5,
+               "with_bsvar": rng.random() < 0.4}
+        if rng.random() < 0.4:
+            cfg["pc"] = [float(dyadic(rng, 1, 3, 2)) for _ in range(N)]
+        if rng.random() < 0.4:
+            cfg["g"] = float(dyadic(rng, 1, 3, 2))
+        out.append(cfg)
     return out
 
 
@@ -326,7 +346,9 @@ def judge_probe(cfg, r):
     N, d, c = cfg["N"], cfg["d"], cfg["c"]
     xi = [i / N for i in range(N + 1)]
     knots = [xi[0]] * d + xi + [xi[-1]] * d
-    exp = sorted([-(1.0 / N) * cdb_value(knots, d, c, xi[k]) for k in range(N)] + [0.0])
+    pcv = cfg.get("pc") or [0.0] * N
+    gv = cfg.get("g") or 0.0
+    exp = sorted([-(1.0 / N) * (cdb_value(knots, d, c, xi[k]) + 1000 * pcv[k] + 10000 * gv) for k in range(N)] + [0.0])
     if len(exp) != len(r["g"]) or not all(engine.close(a, b, rtol=1e-8) for a, b in zip(r["g"], exp)):
         return [{"what": "a grid='bspline' parameter inside the dynamics does not enter the gap-closing constraints with "
                          "its own value at the interval start", "residuals": r["g"], "expected": exp}]
